@@ -53,7 +53,7 @@ def member():
 
 
 def logical(n_min=1, n_max=7, names=None):
-    names = names or G.distinct_names(n_min, n_max, G.rel_name(3, 10))
+    names = G.distinct_names(n_min, n_max, G.rel_name(3, 10)) if names is None else names
     return names.flatmap(lambda ns: st.tuples(*[member().map(lambda m, n=n: dict(m, name=n)) for n in ns]).map(list))
 
 
@@ -89,8 +89,12 @@ def physical(members, draw_cuts, draw_chains, draw_fcrc, draw_scrc, opts):
     folders = []
     i = 0
     k = 0
+    zeros = 0
     while i < nd:
-        n = max(1, min(draw_cuts[k % len(draw_cuts)] if draw_cuts else nd, nd - i))
+        n = min(draw_cuts[k % len(draw_cuts)] if draw_cuts else nd, nd - i)
+        if n <= 0:
+            zeros += 1
+            n = 0 if zeros <= 2 else 1  # folders without substreams are legal (NumUnpackStream = 0)
         folders.append({"coders": draw_chains[k % len(draw_chains)], "n": n, "fcrc": draw_fcrc[k % len(draw_fcrc)],
                         "scrc": draw_scrc[k % len(draw_scrc)]})
         i += n
@@ -111,7 +115,7 @@ def physical(members, draw_cuts, draw_chains, draw_fcrc, draw_scrc, opts):
 def case_strategy(n_max=7, aes_ok=True):
     return st.fixed_dictionaries({
         "members": logical(1, n_max),
-        "cuts": st.lists(st.integers(1, 4), min_size=0, max_size=4),
+        "cuts": st.lists(st.integers(0, 4), min_size=0, max_size=4),
         "chains": st.lists(chain(aes_ok), min_size=1, max_size=4),
         "fcrc": st.lists(st.booleans(), min_size=1, max_size=4),
         "scrc": st.lists(st.one_of(st.just("all"), st.just("all"), st.just("none"), st.lists(st.booleans(), min_size=1, max_size=4)), min_size=1, max_size=4),
